@@ -201,7 +201,19 @@ pub fn simulate_checked(recipe: &WorldRecipe) -> Vec<(ObservableInstanceState, O
         }
     }
     let _ = MS;
-    w.run_until(&mut ch, recipe.seconds.clamp(1, 120) as u128 * SEC);
+    let t0 = recipe.seconds.clamp(1, 120) as u128 * SEC;
+    w.run_until(&mut ch, t0);
+    // in half of the worlds the best clock then falls silent (its neighbours' slave ports time out,
+    // ports leave Slave, a new hierarchy forms) and in half of those it returns: the states after a
+    // port has left Slave are reached only this way (filter replaced, measured link delay kept)
+    if w.nodes.len() > 1 && ch.boolean(S_CFG) {
+        w.nodes[0].silenced = true;
+        w.run_until(&mut ch, t0 + 20 * SEC);
+        if ch.boolean(S_CFG) {
+            w.nodes[0].silenced = false;
+            w.run_until(&mut ch, t0 + 40 * SEC);
+        }
+    }
     let mut seen = std::collections::BTreeSet::new();
     let mut out = Vec::new();
     for s in &w.snapshots {
